@@ -68,8 +68,11 @@ def run(run):
 
         def fresh_answer(q):
             if q not in fresh_cache:
-                h.call(op="scan", dir=proj.dir, graph="fresh", nonodes=True)
-                r = h.call(op="query", graph="fresh", q=q, output="json")
+                # a stand-alone evaluation: a new process (no state of any kind survives), a fresh scan
+                h2 = C.Harness()
+                h2.call(op="scan", dir=proj.dir, graph="fresh", nonodes=True)
+                r = h2.call(op="query", graph="fresh", q=q, output="json")
+                h2.close()
                 fresh_cache[q] = (r.get("outcome"), canon(r.get("result", "")) if r.get("outcome") == "ok" else None)
             return fresh_cache[q]
 
@@ -77,6 +80,23 @@ def run(run):
             h.call(op="scan", dir=proj.dir, graph="loaded", nonodes=True)
             n = rng.randint(1, 20)
             seq = [gen_query() for _ in range(n)]
+            if s % 3 == 1:
+                # near-duplicates: queries that share everything but one part (what a cache key might forget):
+                # the body of a called predicate, a literal, the FROM kind behind the same alias, the SELECT list
+                fam = []
+                k1 = rng.choice([k for k in kinds if k in QG.STRING_ACC])
+                vals = (proj.values.get((k1, "getName")) or ["x"])
+                v1, v2 = rng.choice(vals), rng.choice(vals)
+                for body in ('m.getName() == "%s"' % v1, 'm.getName() != "%s"' % v1, 'm.getVisibility() == "public"', 'm.getName() == "%s"' % v2):
+                    fam.append('predicate p(%s m) { %s } FROM %s AS x WHERE p(x) SELECT x.getName()' % (k1, body, k1))
+                fam.append('predicate p(%s m, %s n) { m.getName() == n.getName() } FROM %s AS x WHERE p(x, x) SELECT x.getName()' % (k1, k1, k1))
+                for lit in (v1, v2, "nope"):
+                    fam.append('FROM %s AS x WHERE x.getName() == "%s" SELECT x.getName()' % (k1, lit))
+                    fam.append('FROM %s AS x WHERE x.getName() == "%s" SELECT x.getVisibility(), x' % (k1, lit))
+                for k2 in kinds:
+                    fam.append('FROM %s AS x WHERE x.getName() != "%s" SELECT x.getName()' % (k2, v1))
+                rng.shuffle(fam)
+                seq = fam + rng.sample(fam, min(6, len(fam)))
             if s == 0:
                 # corpus first: every accessor-with-side-effect candidate followed by a full description of the same kind
                 seq = list(DOCQ)
